@@ -18,13 +18,20 @@ def unhex(s):
 def run_semdrv(ctx, profile, seed, n, extra="", timeout=6000):
     bins = vlib.go_build(["semdrv"])
     goose = vlib.build_goose()
-    cmd = "%s -seed %d -n %d -goose %s -repo %s -coq %s -profile %s -j 6 %s" % (
-        bins["semdrv"], seed, n, goose, vlib.REPO, vlib.COQ, profile, extra)
-    rc, out, err = vlib.sh(["bash", "-c", cmd], timeout=timeout)
-    lines = out.splitlines()
-    done = [l for l in lines if l.startswith("DONE")]
-    if rc != 0 or not done:
+    for attempt in range(4):
+        cmd = "%s -seed %d -n %d -goose %s -repo %s -coq %s -profile %s -j 6 %s" % (
+            bins["semdrv"], seed + 7777 * attempt, n, goose, vlib.REPO, vlib.COQ, profile, extra)
+        rc, out, err = vlib.sh(["bash", "-c", cmd], timeout=timeout)
+        lines = out.splitlines()
+        done = [l for l in lines if l.startswith("DONE")]
         gen = [l for l in lines if l.startswith("GENERATOR-ERROR")]
+        if rc == 3 and gen:
+            # a generated Go program does not compile: a defect of the generator (it does not
+            # depend on /repo); that batch is dropped and another seed is drawn
+            ctx.cov.setdefault("generator_batches_dropped", []).append({"cmd": cmd, "error": unhex(gen[0].split()[1])[:300]})
+            continue
+        break
+    if rc != 0 or not done:
         raise vlib.BuildError("semdrv failed rc=%d (%s): %s\n%s" % (rc, cmd, unhex(gen[0].split()[1])[-1500:] if gen else out[-800:], err[-1500:]))
     stats = {}
     for kv in done[-1].split()[1:]:
